@@ -969,6 +969,8 @@ def run(prog, rep, tier):
     check_phenotype(prog, rep)
     check_fresh(prog, rep)
     check_heritability(prog, rep)
-    check_estimate(prog, rep)
-    check_true(prog, rep)
+    from sa.report import second_reading
+    fs = [f_ for m_ in prog.modules.values() if any(m_.name.startswith(p_) for p_ in ('pybrops.breed.prot.bv', 'pybrops.breed.prot.pt')) for f_ in list(m_.functions.values()) + [g_ for c_ in m_.classes.values() for g_ in c_.methods.values()]]
+    second_reading(rep, fs, lambda r_: check_estimate(prog, r_))
+    second_reading(rep, fs, lambda r_: check_true(prog, r_))
     wire(prog, rep, "C14", 0, 40)
